@@ -127,6 +127,7 @@ def run_case(case):
         srcpv_all = {}        # src -> every PV timestamp that source put on the air (a duplicate's PV is not stored by the receiver, a fresh packet's is)
         n_ind = n_sent = 0
         templ = {}
+        first_time = {}
 
         def check_new_output(step, ctx, just=None):
             nonlocal n_ind, n_sent
@@ -202,7 +203,9 @@ def run_case(case):
                 if first["kind"] == "beacon":
                     first = templ[(ev["src"], ev["sn"])] = ev
                 ev = dict(first, rhl=ev["rhl"], mhl_extra=ev["mhl_extra"])
-            frame, k, sn, de_mid = build_frame(ev, clock.now, area_centre)
+            # a replay is the very same packet (same source position vector and timestamp), only its hop limit may differ
+            built_at = clock.now if ev["kind"] == "beacon" else first_time.setdefault((ev["src"], ev["sn"], ev["kind"]), clock.now)
+            frame, k, sn, de_mid = build_frame(ev, built_at, area_centre)
             src = ev["src"]
             mid = OWN if src == 4 else SRC[src]
             just = {"k": k, "mid": mid, "delivered": 0, "to_me": de_mid == OWN}
@@ -229,8 +232,8 @@ def run_case(case):
                         if (SN_BASE + ev["sn"]) >= 65536:
                             labels.add("sn-wrapped")
                     old = srcpv.get(src, (None, False))
-                    srcpv[src] = (tst32(clock.now), old[1])
-                    srcpv_all.setdefault(src, set()).add(tst32(clock.now))
+                    srcpv[src] = (tst32(built_at), old[1])
+                    srcpv_all.setdefault(src, set()).add(tst32(built_at))
             else:
                 just["fresh"] = False
                 labels.add("own-address")
